@@ -158,3 +158,13 @@ def run_case(case):
     if not must:
         labels.append('no-frame-beyond-window')
     return Outcome(discs, labels, nt and bool(must))
+
+
+def extra_stages(tier, seed):
+    from vlib import engine
+    seeds = []
+    for i, framing in enumerate(FRAMINGS):
+        pdu = specpdu.encode('req:6', {'address': 1, 'value': 0x0102})
+        fr = refframe.build(framing, UID, pdu)
+        seeds += [bytes([i, 0, 0]) + fr[:-1], bytes([i, 1, 3]) + fr[1:], bytes([i, 0, 2]) + refframe.build(framing, 0x12, pdu), bytes([i, 2, 1]) + b':{}\r\n' + fr[:5]]
+    return engine.atheris_stage(PID, tier, seed, 1000 if tier == 'quick' else 60000, seeds, max_len=320)
